@@ -63,10 +63,7 @@ def verify_file(m):
 
 
 def verify_dir(d):
-    entries = []
-    for mf in glob.glob(os.path.join(d, "manifest.*.jsonl")):
-        for l in open(mf):
-            entries.append(json.loads(l))
+    entries = F.read_manifests(os.path.join(d, "manifest.*.jsonl"))
     viol = []
     with ProcessPoolExecutor(driver.NCPU) as ex:
         for m, probs in zip(entries, ex.map(verify_file, entries, chunksize=64)):
